@@ -55,17 +55,18 @@ func drawCalls(t *tape.Tape, family string) []jsCall {
 	t.Repeat("call", 2, 40, 11, 12, func(int) {
 		c := jsCall{}
 		c.ctx = t.Weighted("js.ctx", 3, 2) == 1
-		kinds := []string{"echo", "concat", "sum", "arr", "obj", "probe", "probe", "probe", "node", "nan", "inf", "null", "undef", "throw", "syntax", "oddargs"}
+		kinds := []string{"echo", "concat", "sum", "arr", "obj", "probe", "probe", "probe", "node", "nan", "inf", "null", "undef", "throw", "syntax", "oddargs",
+			"throwstr", "posinf", "nested", "objnull", "arrnull", "booleq", "echo"}
 		c.kind = kinds[t.Intn("js.kind", len(kinds))]
 		if c.kind == "node" {
 			c.ctx = true
 		}
 		// argument names: a random subset of the universe (at least what the script needs)
 		n := t.Intn("js.nargs", 4)
-		if (c.kind == "echo" || c.kind == "obj") && n < 1 {
+		if (c.kind == "echo" || c.kind == "obj" || c.kind == "objnull" || c.kind == "arrnull" || c.kind == "booleq") && n < 1 {
 			n = 1
 		}
-		if (c.kind == "concat" || c.kind == "sum" || c.kind == "arr") && n < 2 {
+		if (c.kind == "concat" || c.kind == "sum" || c.kind == "arr" || c.kind == "nested") && n < 2 {
 			n = 2
 		}
 		perm := append([]string{}, jsUniverse...)
@@ -126,6 +127,18 @@ func (c jsCall) script() string {
 		return "undefined"
 	case "throw":
 		return "throw new Error('boom')"
+	case "throwstr":
+		return "throw 'just a string'"
+	case "posinf":
+		return "1/0"
+	case "nested":
+		return "[[" + c.names[0] + "], [" + c.names[1] + ", [" + c.names[0] + "]]]"
+	case "objnull":
+		return "({k: null, v: " + c.names[0] + "})"
+	case "arrnull":
+		return "[null, " + c.names[0] + "]"
+	case "booleq":
+		return c.names[0] + " === " + c.names[0]
 	case "syntax":
 		return "var;"
 	case "oddargs":
@@ -189,6 +202,14 @@ func (c jsCall) expected(nodeJSON string) (val interface{}, isErr bool) {
 		return []interface{}{arg(0), arg(1)}, false
 	case "obj":
 		return map[string]interface{}{"k": arg(0)}, false
+	case "nested":
+		return []interface{}{[]interface{}{arg(0)}, []interface{}{arg(1), []interface{}{arg(0)}}}, false
+	case "objnull":
+		return map[string]interface{}{"k": nil, "v": arg(0)}, false
+	case "arrnull":
+		return []interface{}{nil, arg(0)}, false
+	case "booleq":
+		return true, false
 	case "probe":
 		names := append([]string{}, c.names...)
 		sort.Strings(names)
